@@ -11,6 +11,7 @@ import (
 	"os"
 
 	"github.com/benbjohnson/litestream/internal/vx"
+	"github.com/pierrec/lz4/v4"
 	"github.com/superfly/ltx"
 )
 
@@ -19,13 +20,34 @@ import (
 type vxPageSink struct {
 	pgnos []uint32
 	bytes int64
+	// first data byte of the pages in [watchLo, watchHi] (decoded), by page number
+	watchLo, watchHi uint32
+	ps               int
+	first            map[uint32]byte
+	state            int // 0 expect page header, 1 expect size, 2 expect data
+	cur              uint32
 }
 
 func (s *vxPageSink) Write(p []byte) (int, error) {
 	s.bytes += int64(len(p))
-	if len(p) == ltx.PageHeaderSize {
+	switch {
+	case s.state == 0 && len(p) == ltx.PageHeaderSize:
 		pg := uint32(p[0])<<24 | uint32(p[1])<<16 | uint32(p[2])<<8 | uint32(p[3])
 		s.pgnos = append(s.pgnos, pg)
+		s.cur = pg
+		if pg != 0 {
+			s.state = 1
+		}
+	case s.state == 1 && len(p) == 4:
+		s.state = 2
+	case s.state == 2:
+		s.state = 0
+		if s.first != nil && s.cur >= s.watchLo && s.cur <= s.watchHi {
+			buf := make([]byte, s.ps)
+			if n, err := lz4.UncompressBlock(p, buf); err == nil && n == s.ps {
+				s.first[s.cur] = buf[0]
+			}
+		}
 	}
 	return len(p), nil
 }
@@ -123,6 +145,18 @@ func VxC17Snapshot() {
 	dir := vx.TempDir()
 	dbPath := dir + "/big.db"
 	vx.FSSparseFile(dbPath, int64(commit)*int64(ps))
+	// the pages around the lock page carry a mark in their first byte (0xB0 + distance
+	// from lock-2); the lock page's own region holds junk
+	for d := uint32(0); d <= 4; d++ {
+		pg := lock - 2 + d
+		if pg <= commit {
+			mark := byte(0xB0 + d)
+			if pg == lock {
+				mark = 0xEE
+			}
+			vx.FSSparsePatch(dbPath, int64(pg-1)*int64(ps), []byte{mark})
+		}
+	}
 	// one page next to the lock page comes from the WAL instead of the database file
 	pageMap := map[uint32]int64{}
 	wal := make([]byte, WALHeaderSize+WALFrameHeaderSize+ps)
@@ -145,7 +179,7 @@ func VxC17Snapshot() {
 		panic(err)
 	}
 	defer wf.Close()
-	sink := &vxPageSink{}
+	sink := &vxPageSink{watchLo: lock - 2, watchHi: lock + 2, ps: ps, first: map[uint32]byte{}}
 	enc, err := ltx.NewEncoder(sink)
 	if err != nil {
 		panic(err)
@@ -174,5 +208,19 @@ func VxC17Snapshot() {
 		next++
 	}
 	vx.Assert("every-page-but-the-lock-page-in-order", ok)
+	// every page next to the lock page carries its own image (from the database
+	// file, or from the WAL where the WAL holds it)
+	for d := uint32(0); d <= 4; d++ {
+		pg := lock - 2 + d
+		if pg == lock || pg > commit {
+			continue
+		}
+		want := byte(0xB0 + d)
+		if _, inWAL := pageMap[pg]; inWAL {
+			want = 0xA7
+		}
+		got, have := sink.first[pg]
+		vx.Assert("page-next-to-the-lock-page-has-its-own-image", have && got == want)
+	}
 	vx.Observe("pages", uint64(len(sink.pgnos)))
 }
